@@ -163,6 +163,17 @@ def _ep_from_angle(v, ctx):
     out.append(pt.coords("klein"))
     pt3 = hyperbolic.IdealPoint.from_angle(v, dimension=3)
     out.append(data(pt3))
+    # the same angle inside grids of angles (nested lists / arrays of rank 2, size-1 axes):
+    # entry [i][j] of the result is the ideal point at angle grid[i][j]
+    a0 = float(np.asarray(v, dtype=float))
+    for grid in ([[a0, a0 + 0.5, a0 - 1.0], [a0 + 2.0, a0 + 0.25, a0 + 1.5]],
+                 [[a0, a0 + 1.0], [a0 + 2.0, a0 + 3.0]], [[a0], [a0 + 0.5]]):
+        for arg in (grid, np.array(grid)):
+            G_ = np.asarray(hyperbolic.IdealPoint.from_angle(arg).coords("klein"), dtype=float)
+            ga = np.array(grid)
+            ctx.close("from_angle(grid of angles)[i][j] is the point at angle grid[i][j]", G_,
+                      np.stack([np.cos(ga), np.sin(ga)], axis=-1), rtol=0,
+                      atol=2e-4 if np.asarray(v).dtype == np.float32 else 1e-12)
     return out
 
 
@@ -885,6 +896,26 @@ def body_rescale(case, ctx):
                                    np.array(S0.ideal_endpoint_coords("projective"))) /
               (1e-7 / (1.0 - rad) / np.maximum(np.sqrt(np.sum((KA - KB) ** 2, axis=-1)), 1e-3)),
               1.0)
+    # one endpoint given by integer-typed coordinates (a lattice point of the projective
+    # model), the other by floats: the same segment as for its float copy - in either order
+    ip = np.zeros(shape + (n + 1,), dtype=np.int64)
+    ip[..., 0] = 2
+    ip[..., 1] = 1
+    if np.all(np.sum((KB - np.eye(n)[0] * 0.5) ** 2, axis=-1) > 1e-4):
+        for order in (0, 1):
+            ends_i = (ip.copy(), PB0.copy()) if order == 0 else (PB0.copy(), ip.copy())
+            ends_f = (ip.astype(float), PB0.copy()) if order == 0 else (PB0.copy(),
+                                                                         ip.astype(float))
+            Si = hyperbolic.Segment(hyperbolic.Point(ends_i[0]), hyperbolic.Point(ends_i[1]))
+            Sf = hyperbolic.Segment(hyperbolic.Point(ends_f[0]), hyperbolic.Point(ends_f[1]))
+            ctx.close("Segment with one integer-typed endpoint: endpoints as given",
+                      np.array(Si.proj_data, dtype=float), np.array(Sf.proj_data, dtype=float),
+                      rtol=0, atol=0)
+            ctx.small("Segment with one integer-typed endpoint: ideal endpoints of the float "
+                      "copy", _unordered_pair_dist(
+                          np.array(Si.ideal_endpoint_coords("projective"), dtype=float),
+                          np.array(Sf.ideal_endpoint_coords("projective"), dtype=float)), 1e-9)
+        ctx.label("integer-typed-endpoint")
     I0 = np.array(S0.ideal_endpoint_coords("projective"))
     I1 = np.array(S1.ideal_endpoint_coords("projective"))
     sep = np.sqrt(np.sum((KA - KB) ** 2, axis=-1))
